@@ -10,11 +10,11 @@ import (
 
 func init() {
 	register(&propInfo{
-		ID: "C20",
+		ID:          "C20",
 		Explanation: "Typestate, lockset and path analysis of the httpio reader side channel: (R20.1) the channel that signals 'stream consumed' is closed only inside sync.Once-guarded closures of one Once object, although Read and Close may be invoked any number of times; (R20.2) upload handler and parameter decoder each perform lookup-or-create of the hand-off channel inside one critical section of the same mutex, keyed by the parsed id, create only on the not-found branch, and meet on that channel with opposite directions, each inside a select that also watches its context; (R20.3) the encoder draws a fresh id on every invocation (inside the encoder closure), uploads the caller's reader to a URL derived from that id and returns that same id as the parameter; (R20.4) the upload handler reports success only after the consumed-signal was received, and no path falls off the end (implicit 200) without it.",
-		NotDecided: "Byte-exactness of the stream and EOF stickiness (values through net/http), arrival-order schedules themselves (only the symmetric locked rendezvous that makes both orders work), and the upload handler carrying on after a malformed id (observation recorded in DESIGN.md).",
+		NotDecided:  "Byte-exactness of the stream and EOF stickiness (values through net/http), arrival-order schedules themselves (only the symmetric locked rendezvous that makes both orders work), and the upload handler carrying on after a malformed id (observation recorded in DESIGN.md).",
 		Assumptions: []string{"sync.Once.Do runs its argument at most once per Once object", "the wrapper type is the struct in httpio embedding io.ReadCloser with a chan struct{} field"},
-		Run: runC20,
+		Run:         runC20,
 	})
 }
 
